@@ -63,35 +63,32 @@ theorem objective_le_weighted_total (i : Inp K) (x : Var → K)
 
 /-! ## the checker -/
 
-theorem sumTerms_perm (x : Var → K) {l₁ l₂ : List (Var × K)} (h : l₁.Perm l₂) :
-    Aff.sumTerms x l₁ = Aff.sumTerms x l₂ := by
-  induction h with
+theorem insertTerm_eval (x : Var → K) (v : Var) (c : K) (l : List (Var × K)) :
+    Aff.sumTerms x (insertTerm v c l) = c * x v + Aff.sumTerms x l := by
+  induction l with
   | nil => rfl
-  | cons p _ ih => obtain ⟨v, c⟩ := p; simp only [sumTerms_cons, ih]
-  | swap p q l =>
-    obtain ⟨v, c⟩ := p; obtain ⟨w, d⟩ := q
-    simp only [sumTerms_cons]; ring
-  | trans _ _ ih1 ih2 => rw [ih1, ih2]
+  | cons p t ih =>
+    obtain ⟨w, d⟩ := p
+    unfold insertTerm
+    split_ifs with h1 h2
+    · subst h1
+      simp only [sumTerms_cons]; ring
+    · simp only [sumTerms_cons]
+    · simp only [sumTerms_cons, ih]; ring
 
-theorem mergeAdj_eval (x : Var → K) (l : List (Var × K)) :
-    Aff.sumTerms x (mergeAdj l) = Aff.sumTerms x l := by
-  fun_induction mergeAdj l with
-  | case1 => rfl
-  | case2 p => rfl
-  | case3 p q t heq ih =>
-    obtain ⟨v, c⟩ := p; obtain ⟨w, d⟩ := q
-    simp only at heq
-    subst heq
-    rw [ih]
-    simp only [sumTerms_cons]; ring
-  | case4 p q t hne ih =>
+theorem normalise_fold_eval (x : Var → K) (l acc : List (Var × K)) :
+    Aff.sumTerms x (l.foldl (fun acc p => insertTerm p.1 p.2 acc) acc) =
+      Aff.sumTerms x l + Aff.sumTerms x acc := by
+  induction l generalizing acc with
+  | nil => simp only [List.foldl_nil, sumTerms_nil, zero_add]
+  | cons p t ih =>
     obtain ⟨v, c⟩ := p
-    simp only [sumTerms_cons, ih]
+    simp only [List.foldl_cons, ih, insertTerm_eval, sumTerms_cons]; ring
 
 theorem normalise_eval (x : Var → K) (l : List (Var × K)) :
     Aff.sumTerms x (normalise l) = Aff.sumTerms x l := by
   unfold normalise
-  rw [mergeAdj_eval, sumTerms_perm x (List.mergeSort_perm l _)]
+  rw [normalise_fold_eval, sumTerms_nil, add_zero]
 
 /-- a sign-correct multiple of a row that holds is non-positive -/
 theorem signOK_mul_nonpos (x : Var → K) (r : Row K) (y : K) (hs : signOK r.rel y = true)
@@ -179,5 +176,298 @@ theorem dualBound_sound (rows : List (Row K)) (y : List K) (ub : Var → Option 
       linarith
   · rw [Bool.not_eq_true] at hs
     simp only [hs, Bool.not_false, if_true, reduceCtorEq] at hb
+
+/-! ## upper bounds of the variables -/
+
+section Bounds
+variable {i : Inp K} {kind : Kind} {x : Var → K} {m : Nat}
+
+theorem total_zero (l : List K) : total l 0 = 0 := rfl
+
+theorem total_succ (l : List K) (n : Nat) : total l (n + 1) = total l n + at' l n := by
+  unfold total
+  rw [List.range_succ, List.foldl_append]
+  rfl
+
+/-- the supply of the months `0 … m` -/
+theorem total_eq_cum (l : List K) (m : Nat) : total l (m + 1) = cum (at' l) m := by
+  induction m with
+  | zero => rw [total_succ, total_zero, zero_add, cum_zero]
+  | succ m ih => rw [total_succ, ih, cum_succ]
+
+/-- one month's draw is at most the running total when nothing drawn is negative -/
+theorem single_le_cum (f : ℕ → K) (m : ℕ) (h : ∀ k, k ≤ m → 0 ≤ f k) : f m ≤ cum f m := by
+  cases m with
+  | zero => exact le_rfl
+  | succ m =>
+    rw [cum_succ]
+    exact le_add_of_nonneg_left (cum_nonneg f m (fun k hk => h k (by omega)))
+
+theorem keepPos {w : K} (hw : w < 100.0) : 0 < 1 - w / 100.0 := by
+  rw [sci_100] at hw ⊢
+  have : w / 100 < 1 := by rw [div_lt_one (by norm_num)]; exact hw
+  linarith
+
+theorem grossUp_nonneg {v w : K} (hw : w < 100.0) (hv : 0 ≤ v) : 0 ≤ grossUp v w :=
+  div_nonneg hv (keepPos hw).le
+
+/-- people never receive more than is drawn for them -/
+theorem le_grossUp {v w : K} (hw0 : 0 ≤ w) (hw : w < 100.0) (hv : 0 ≤ v) : v ≤ grossUp v w := by
+  unfold grossUp
+  rw [le_div_iff₀ (keepPos hw)]
+  have : 0 ≤ w / 100.0 := div_nonneg hw0 (by rw [sci_100]; norm_num)
+  nlinarith
+
+/-! ### stored food -/
+
+theorem storedUse_nonneg (hx : ∀ v, 0 ≤ x v) (hw : i.wStored < 100.0) (k : Nat) :
+    0 ≤ storedUse i x k :=
+  add_nonneg (add_nonneg (grossUp_nonneg hw (hx _)) (hx _)) (hx _)
+
+theorem storedUse_le_initial (h : Feasible (buildLP i kind) x) (hon : i.addStored = true)
+    (hw : i.wStored < 100.0) (hm : m < i.nmonths) : storedUse i x m ≤ i.storedInitial :=
+  le_trans (single_le_cum _ m (fun k _ => storedUse_nonneg h.2 hw k)) (stored_cumulative h hon hm)
+
+theorem sfEnd_le (h : Feasible (buildLP i kind) x) (hon : i.addStored = true)
+    (hw : i.wStored < 100.0) (hm : m < i.nmonths)
+    (hreg : i.storeBetweenYears = true ∨ m ≤ 12) : x (.mv .sfEnd m) ≤ i.storedInitial := by
+  rw [stored_end_eq h hon hm hreg]
+  have := cum_nonneg (storedUse i x) m (fun k _ => storedUse_nonneg h.2 hw k)
+  linarith
+
+theorem sfStart_le (h : Feasible (buildLP i kind) x) (hon : i.addStored = true)
+    (hw : i.wStored < 100.0) (hm : m < i.nmonths)
+    (hreg : i.storeBetweenYears = true ∨ m ≤ 13) : x (.mv .sfStart m) ≤ i.storedInitial := by
+  by_cases hm0 : m = 0
+  · subst hm0
+    rw [stored_start_zero h hon hm]
+  · rw [stored_start_succ h hon hm hm0]
+    exact sfEnd_le h hon hw (by omega) (hreg.imp_right (fun h13 => by omega))
+
+theorem stored_parts_le (h : Feasible (buildLP i kind) x) (hon : i.addStored = true)
+    (hw0 : 0 ≤ i.wStored) (hw : i.wStored < 100.0) (hm : m < i.nmonths) :
+    x (.mv .sfHumans m) ≤ i.storedInitial ∧ x (.mv .sfFeed m) ≤ i.storedInitial ∧
+      x (.mv .sfBiofuel m) ≤ i.storedInitial := by
+  have hu := storedUse_le_initial h hon hw hm
+  unfold storedUse at hu
+  have h1 := le_grossUp hw0 hw (h.2 (.mv .sfHumans m))
+  have h2 := grossUp_nonneg hw (h.2 (.mv .sfHumans m))
+  have h3 := h.2 (.mv .sfFeed m)
+  have h4 := h.2 (.mv .sfBiofuel m)
+  refine ⟨?_, ?_, ?_⟩ <;> linarith
+
+/-! ### crops -/
+
+theorem cropUse_nonneg (hx : ∀ v, 0 ≤ x v) (hw : i.wCrop < 100.0) (k : Nat) : 0 ≤ cropUse i x k :=
+  add_nonneg (add_nonneg (grossUp_nonneg hw (hx _)) (hx _)) (hx _)
+
+theorem cropUse_le_total (h : Feasible (buildLP i kind) x) (hon : i.addOutdoor = true)
+    (hw : i.wCrop < 100.0) (hm : m < i.nmonths) : cropUse i x m ≤ total i.cropProd (m + 1) := by
+  rw [total_eq_cum]
+  exact le_trans (single_le_cum _ m (fun k _ => cropUse_nonneg h.2 hw k)) (crop_cumulative h hon hm)
+
+theorem crop_vars_le (h : Feasible (buildLP i kind) x) (hon : i.addOutdoor = true)
+    (hw0 : 0 ≤ i.wCrop) (hw : i.wCrop < 100.0) (hm : m < i.nmonths) :
+    x (.mv .cropStorage m) ≤ total i.cropProd (m + 1) ∧
+    x (.mv .cropConsumed m) ≤ total i.cropProd (m + 1) ∧
+    x (.mv .cropHumans m) ≤ total i.cropProd (m + 1) ∧
+    x (.mv .cropFeed m) ≤ total i.cropProd (m + 1) ∧
+    x (.mv .cropBiofuel m) ≤ total i.cropProd (m + 1) := by
+  have hu := cropUse_le_total h hon hw hm
+  have hc := crop_consumed h hon hm
+  have hst := crop_storage_eq h hon hm
+  have hcn := cum_nonneg (cropUse i x) m (fun k _ => cropUse_nonneg h.2 hw k)
+  rw [← total_eq_cum] at hst
+  unfold cropUse at hu hc
+  have h1 := le_grossUp hw0 hw (h.2 (.mv .cropHumans m))
+  have h2 := grossUp_nonneg hw (h.2 (.mv .cropHumans m))
+  have h3 := h.2 (.mv .cropFeed m)
+  have h4 := h.2 (.mv .cropBiofuel m)
+  refine ⟨?_, ?_, ?_, ?_, ?_⟩ <;> linarith
+
+/-! ### meat -/
+
+theorem meatUse_nonneg (hx : ∀ v, 0 ≤ x v) (hw : i.wMeat < 100.0) (k : Nat) : 0 ≤ meatUse i x k :=
+  grossUp_nonneg hw (hx _)
+
+theorem meat_vars_le (h : Feasible (buildLP i kind) x) (hon : i.addMeat = true)
+    (hs : i.storeBetweenYears = true) (hw0 : 0 ≤ i.wMeat) (hw : i.wMeat < 100.0)
+    (hm : m < i.nmonths) :
+    x (.mv .meatStart m) ≤ i.meatSummed ∧ x (.mv .meatEnd m) ≤ i.meatSummed ∧
+      x (.mv .meatEaten m) ≤ i.meatSummed := by
+  have hend : ∀ n, n < i.nmonths → x (.mv .meatEnd n) ≤ i.meatSummed := by
+    intro n hn
+    rw [meat_end_eq h hon hs hn]
+    have := cum_nonneg (meatUse i x) n (fun k _ => meatUse_nonneg h.2 hw k)
+    linarith
+  refine ⟨?_, hend m hm, ?_⟩
+  · by_cases hm0 : m = 0
+    · subst hm0
+      rw [meat_start_zero h hon hs hm]
+    · rw [meat_start_succ h hon hs hm hm0]
+      exact hend _ (by omega)
+  · have h1 := le_grossUp hw0 hw (h.2 (.mv .meatEaten m))
+    have h2 : meatUse i x m ≤ cum (meatUse i x) m :=
+      single_le_cum _ m (fun k _ => meatUse_nonneg h.2 hw k)
+    have h3 := meat_total h hon hs hm
+    have h4 : meatUse i x m = grossUp (x (.mv .meatEaten m)) i.wMeat := rfl
+    linarith
+
+theorem meatEaten_le_slaughtered (h : Feasible (buildLP i kind) x) (hon : i.addMeat = true)
+    (hs : i.storeBetweenYears = false) (hw0 : 0 ≤ i.wMeat) (hw : i.wMeat < 100.0)
+    (hm : m < i.nmonths) : x (.mv .meatEaten m) ≤ at' i.slaughtered m :=
+  le_trans (le_grossUp hw0 hw (h.2 _)) (meat_monthly h hon hs hm)
+
+/-! ### single-cell protein, cellulosic sugar -/
+
+theorem scp_vars_le (h : Feasible (buildLP i kind) x) (hon : i.addScp = true)
+    (hw0 : 0 ≤ i.wScp) (hw : i.wScp < 100.0) (hm : m < i.nmonths) :
+    x (.mv .scpHumans m) ≤ at' i.scp m ∧ x (.mv .scpFeed m) ≤ at' i.scp m ∧
+      x (.mv .scpBiofuel m) ≤ at' i.scp m := by
+  have hu := scp_cap h hon hm
+  unfold scpUse at hu
+  have h1 := le_grossUp hw0 hw (h.2 (.mv .scpHumans m))
+  have h2 := grossUp_nonneg hw (h.2 (.mv .scpHumans m))
+  have h3 := h.2 (.mv .scpFeed m)
+  have h4 := h.2 (.mv .scpBiofuel m)
+  refine ⟨?_, ?_, ?_⟩ <;> linarith
+
+theorem cs_vars_le (h : Feasible (buildLP i kind) x) (hon : i.addCs = true)
+    (hw0 : 0 ≤ i.wCs) (hw : i.wCs < 100.0) (hm : m < i.nmonths) :
+    x (.mv .csHumans m) ≤ at' i.cs m ∧ x (.mv .csFeed m) ≤ at' i.cs m ∧
+      x (.mv .csBiofuel m) ≤ at' i.cs m := by
+  have hu := cs_cap h hon hm
+  unfold csUse at hu
+  have h1 := le_grossUp hw0 hw (h.2 (.mv .csHumans m))
+  have h2 := grossUp_nonneg hw (h.2 (.mv .csHumans m))
+  have h3 := h.2 (.mv .csFeed m)
+  have h4 := h.2 (.mv .csBiofuel m)
+  refine ⟨?_, ?_, ?_⟩ <;> linarith
+
+end Bounds
+
+theorem ubOf_valid (i : Inp K) (kind : Kind) (x : Var → K) (hw : WellFormed i)
+    (h : Feasible (buildLP i kind) x) : ∀ v u, ubOf i kind v = some u → x v ≤ u := by
+  obtain ⟨⟨hS0, hS⟩, ⟨hC0, hC⟩, ⟨hM0, hM⟩, ⟨hP0, hP⟩, ⟨hZ0, hZ⟩, ⟨hW0, hW⟩, -, -⟩ := hw
+  intro v u hu
+  cases v with
+  | objective => simp only [ubOf, reduceCtorEq] at hu
+  | objectiveBest => simp only [ubOf, reduceCtorEq] at hu
+  | mv k m =>
+    unfold ubOf at hu
+    by_cases hmN : i.nmonths ≤ m
+    · simp only [hmN, if_true, reduceCtorEq] at hu
+    · simp only [hmN, if_false] at hu
+      have hm : m < i.nmonths := by omega
+      cases k <;> simp only at hu
+      · -- sfStart
+        split_ifs at hu with hc
+        · obtain rfl := Option.some.inj hu
+          simp only [Bool.and_eq_true, Bool.or_eq_true, decide_eq_true_eq] at hc
+          exact sfStart_le h hc.1 hS hm hc.2
+      · -- sfEnd
+        split_ifs at hu with hc
+        · obtain rfl := Option.some.inj hu
+          simp only [Bool.and_eq_true, Bool.or_eq_true, decide_eq_true_eq] at hc
+          exact sfEnd_le h hc.1 hS hm hc.2
+      · split_ifs at hu with hoff hreg
+        · obtain rfl := Option.some.inj hu
+          have hon : i.addStored = true := by simpa using hoff
+          exact (stored_parts_le h hon hS0 hS hm).1
+        · obtain rfl := Option.some.inj hu
+          have hon : i.addStored = true := by simpa using hoff
+          simp only [Bool.or_eq_true, decide_eq_true_eq, not_or, Bool.not_eq_true, not_le] at hreg
+          exact (stored_vars_zero h hon hreg.1 hm hreg.2).1.le
+      · split_ifs at hu with hoff hreg
+        · obtain rfl := Option.some.inj hu
+          have hon : i.addStored = true := by simpa using hoff
+          exact (stored_parts_le h hon hS0 hS hm).2.1
+        · obtain rfl := Option.some.inj hu
+          have hon : i.addStored = true := by simpa using hoff
+          simp only [Bool.or_eq_true, decide_eq_true_eq, not_or, Bool.not_eq_true, not_le] at hreg
+          exact (stored_vars_zero h hon hreg.1 hm hreg.2).2.1.le
+      · split_ifs at hu with hoff hreg
+        · obtain rfl := Option.some.inj hu
+          have hon : i.addStored = true := by simpa using hoff
+          exact (stored_parts_le h hon hS0 hS hm).2.2
+        · obtain rfl := Option.some.inj hu
+          have hon : i.addStored = true := by simpa using hoff
+          simp only [Bool.or_eq_true, decide_eq_true_eq, not_or, Bool.not_eq_true, not_le] at hreg
+          exact (stored_vars_zero h hon hreg.1 hm hreg.2).2.2.le
+      · split_ifs at hu with hon
+        · obtain rfl := Option.some.inj hu
+          exact (scp_vars_le h hon hP0 hP hm).1
+      · split_ifs at hu with hon
+        · obtain rfl := Option.some.inj hu
+          exact (scp_vars_le h hon hP0 hP hm).2.1
+      · split_ifs at hu with hon
+        · obtain rfl := Option.some.inj hu
+          exact (scp_vars_le h hon hP0 hP hm).2.2
+      · split_ifs at hu with hon
+        · obtain rfl := Option.some.inj hu
+          exact (cs_vars_le h hon hZ0 hZ hm).1
+      · split_ifs at hu with hon
+        · obtain rfl := Option.some.inj hu
+          exact (cs_vars_le h hon hZ0 hZ hm).2.1
+      · split_ifs at hu with hon
+        · obtain rfl := Option.some.inj hu
+          exact (cs_vars_le h hon hZ0 hZ hm).2.2
+      · split_ifs at hu with hc
+        · obtain rfl := Option.some.inj hu
+          simp only [Bool.and_eq_true] at hc
+          exact (meat_vars_le h hc.1 hc.2 hM0 hM hm).1
+      · split_ifs at hu with hc
+        · obtain rfl := Option.some.inj hu
+          simp only [Bool.and_eq_true] at hc
+          exact (meat_vars_le h hc.1 hc.2 hM0 hM hm).2.1
+      · -- meatEaten
+        split_ifs at hu with hoff hs
+        · obtain rfl := Option.some.inj hu
+          have hon : i.addMeat = true := by simpa using hoff
+          exact (meat_vars_le h hon hs hM0 hM hm).2.2
+        · obtain rfl := Option.some.inj hu
+          have hon : i.addMeat = true := by simpa using hoff
+          have hs' : i.storeBetweenYears = false := by simpa using hs
+          exact meatEaten_le_slaughtered h hon hs' hM0 hM hm
+      · split_ifs at hu with hon
+        · obtain rfl := Option.some.inj hu
+          exact (crop_vars_le h hon hC0 hC hm).1
+      · split_ifs at hu with hon
+        · obtain rfl := Option.some.inj hu
+          exact (crop_vars_le h hon hC0 hC hm).2.1
+      · split_ifs at hu with hon
+        · obtain rfl := Option.some.inj hu
+          exact (crop_vars_le h hon hC0 hC hm).2.2.1
+      · split_ifs at hu with hon
+        · obtain rfl := Option.some.inj hu
+          exact (crop_vars_le h hon hC0 hC hm).2.2.2.1
+      · split_ifs at hu with hon
+        · obtain rfl := Option.some.inj hu
+          exact (crop_vars_le h hon hC0 hC hm).2.2.2.2
+      · -- swWet
+        split_ifs at hu with hon
+        · obtain rfl := Option.some.inj hu
+          exact (seaweed_bounds h hon hm).2.1
+      · split_ifs at hu with hc
+        · obtain rfl := Option.some.inj hu
+          simp only [Bool.and_eq_true, decide_eq_true_eq] at hc
+          obtain ⟨hon, rfl⟩ := hc
+          exact (seaweed_month_zero h hon hm).2.2.1.le
+      · split_ifs at hu with hc
+        · obtain rfl := Option.some.inj hu
+          simp only [Bool.and_eq_true, decide_eq_true_eq] at hc
+          obtain ⟨hon, rfl⟩ := hc
+          exact (seaweed_month_zero h hon hm).2.2.2.1.le
+      · split_ifs at hu with hc
+        · obtain rfl := Option.some.inj hu
+          simp only [Bool.and_eq_true, decide_eq_true_eq] at hc
+          obtain ⟨hon, rfl⟩ := hc
+          exact (seaweed_month_zero h hon hm).2.2.2.2.le
+      · -- usedArea
+        split_ifs at hu with hon
+        · obtain rfl := Option.some.inj hu
+          exact (seaweed_bounds h hon hm).2.2.2
+      · -- consumedKcals
+        simp only [reduceCtorEq] at hu
 
 end Allfed.Proofs.Certificate
